@@ -238,6 +238,10 @@ def confusion_cases(tier):
                     yield mk(m, *ops)
                     if n <= 2:
                         yield mk(m, *ops, core=1, dev='ATtiny20')
+                    # the same confusion with the registers written as `.def` aliases and the values as symbols: an
+                    # alias where a value is required is as wrong as the register itself
+                    if 1 <= n <= 2 and 'r' in kinds:
+                        yield mk_sym(m, *ops)
 
 def judge_device(cases, vio):
     """under a selected device the gate may reject legal instructions (that is C13): only
